@@ -329,6 +329,7 @@ func init() {
 		Quick: []string{"default", "inplacetranspose", "noasm"},
 		Run: func(rc *rules.RC) {
 			rules.B1(rc)
+			rules.B3(rc)
 			rules.SP(rc, "C20", 6)
 			rules.LGuards(rc, "C20")
 			rules.K3(rc, fileFilter("defaultenginefloat32.go", "defaultenginefloat64.go"), 0, 0)
